@@ -140,6 +140,7 @@ PROPS = {
             {"test": "TestC03R", "quick": 10000, "thorough": 200000, "shards_thorough": 14},
             {"test": "TestC10Adapters", "module": "binance", "pkg": "./checks", "quick": 50, "thorough": 1600, "shards_thorough": 8},
             {"test": "TestC10OwnPins", "module": "psown", "pkg": "./checks", "quick": 3000, "thorough": 200000, "shards_thorough": 8},
+            {"test": "TestC10Net", "module": "netown", "pkg": "./checks", "quick": 60, "thorough": 4000, "shards_thorough": 4},
         ],
         "rule": "Structure-aware hostile input. T1/T2: frames captured from a fault-free run of the configuration under test (loud / silent; BLS, PS, "
                 "scripted backend; KeyGen, Sign) are truncated, extended, bit-flipped, spliced, replaced by hostile constants sitting on the decoders' "
@@ -308,8 +309,12 @@ PROPS = {
         "jobs": [
             {"test": "TestC15", "quick": 6000, "thorough": 150000, "shards_thorough": 14},
             {"test": "FuzzC15", "fuzz": "FuzzC15", "tiers": ["thorough"], "fuzztime": 40},
+            {"test": "TestC15Conc", "quick": 8, "thorough": 400, "shards_thorough": 8},
         ],
-        "rule": "Stateful against a reference model: msg.Box with MaxInFlightTopicsBySender in 2..4, GCExpire of 2..4 sweeps, hand-fed epoch ticker "
+        "rule": "TestC15Conc: real goroutines - per round a fresh topic, 2..8 senders deliver 1..3 messages each while another goroutine starts the topic, "
+                "300..3000 rounds, limit 1..3, clock stopped; exact verdict per round: every message handed over exactly once (a leaked per-sender "
+                "registration throttles a sender after limit+1 leaks). TestC15: topics of 32 bytes, 2 bytes, mixed lengths and tiny (empty/1 byte). "
+                "Stateful against a reference model: msg.Box with MaxInFlightTopicsBySender in 2..4, GCExpire of 2..4 sweeps, hand-fed epoch ticker "
                 "and the bubble's virtual wall clock; rapid draws sequences of up to 60 (thorough 400) operations: receive bursts (1..103 messages, "
                 "crossing the per-sender limit of 100) of 3 senders on a sliding stream of topics (cumulatively many, few at a time), Send, advance "
                 "1..3 epochs, idle 5..12 epochs, pure GC triggers (Send on a fresh topic after a gap). Oracle: no panic; nothing invented or handed "
